@@ -71,8 +71,20 @@ class Session:
             return False
         except Exception as e:  # the interpreter does not accept this call sequence: outside C04's domain
             self.dead = '%s at step %s' % (type(e).__name__, step[0])
+            if step[0] == 'misuse':
+                CUR['stats'].classes['misuse-refused'] += 1
             return False
         self.trace.append(step)
+        if step[0] == 'misuse':
+            # the tracker accepted a call that breaks the stack discipline: its state and the bytes must still agree with the
+            # machine, which they cannot; whatever check() finds is reported, and the history ends here
+            CUR['stats'].classes['misuse-accepted'] += 1
+            try:
+                self.check(step)
+            except Violation as v:
+                raise Violation('the tracking interpreter accepted the invalid call %r instead of refusing it; consequence: %s' % (step[1], v.msg), self.case(), 'misuse-accepted:' + step[1])
+            self.dead = 'misuse accepted without observable divergence'
+            return True
         self.check(step)
         return True
 
@@ -127,7 +139,7 @@ class Hist(RuleBasedStateMachine):
     @precondition(lambda self: self.s is not None)
     @rule(data=st.data())
     def step(self, data):
-        step = H.draw_step(data.draw, self.s.r)
+        step = H.draw_step(data.draw, self.s.r, misuse=True)
         ok = self.s.step(step)
         CUR['steps'] += 1 if ok else 0
         if not ok:
